@@ -38,6 +38,9 @@ type Op struct {
 	K     string `json:"k"` // append get since last assets
 	Name  int    `json:"name"`
 	Batch []Snap `json:"batch,omitempty"`
+	// Batch2: second batch of an "overlap" operation (two Append calls on one asset overlapping in
+	// time: the first is held half-way while the second runs to completion)
+	Batch2 []Snap `json:"batch2,omitempty"`
 	Bound int    `json:"bound,omitempty"` // day offset of the GetSince bound
 }
 
@@ -69,28 +72,39 @@ func genCase(t *rapid.T) Case {
 	var dates []int
 	c := Case{}
 	for i := 0; i < n; i++ {
-		k := rapid.SampledFrom([]string{"append", "append", "append", "append", "get", "since", "since", "last", "assets", "touch"}).Draw(t, "k")
+		k := rapid.SampledFrom([]string{"append", "append", "append", "append", "get", "since", "since", "last", "assets", "touch", "overlap"}).Draw(t, "k")
 		op := Op{K: k, Name: rapid.IntRange(0, 3).Draw(t, "name")}
 		switch k {
 		case "touch":
 			op.Name = rapid.IntRange(0, 2).Draw(t, "tname")
-		case "append":
+		case "append", "overlap":
 			op.Name = rapid.IntRange(0, 2).Draw(t, "aname") // NEVER is never appended
 			m := rapid.IntRange(0, 5).Draw(t, "batch")
+			m2 := 0
+			if k == "overlap" {
+				m, m2 = rapid.IntRange(2, 5).Draw(t, "batchA"), rapid.IntRange(1, 4).Draw(t, "batchB")
+			}
 			d, ok := last[op.Name]
 			if !ok {
 				d = rapid.IntRange(0, 3000).Draw(t, "start")
 			}
-			for j := 0; j < m; j++ {
+			for j := 0; j < m+m2; j++ {
 				d += rapid.IntRange(0, 3).Draw(t, "gap") // non-decreasing, equal dates allowed
+				if k == "overlap" {
+					d++ // strictly increasing, so that the two batches can be told apart by date
+				}
 				s := Snap{Day: d}
 				for f := range s.F {
 					s.F[f] = genFloat(t)
 				}
-				op.Batch = append(op.Batch, s)
+				if j < m {
+					op.Batch = append(op.Batch, s)
+				} else {
+					op.Batch2 = append(op.Batch2, s)
+				}
 				dates = append(dates, d)
 			}
-			if m > 0 {
+			if m+m2 > 0 {
 				last[op.Name] = d
 			}
 		case "since":
@@ -114,6 +128,10 @@ type repoMaker struct {
 	// touch leaves an existing but EMPTY store for the name behind (file-system: a zero-byte
 	// file, as `touch` or an interrupted write does); nil where there is no such notion.
 	touch func(name string) error
+	// concurrent says that overlapping Append calls on one asset are within what the repository
+	// offers (in-memory: guarded by its mutex; SQL: one INSERT per snapshot). The file-system
+	// repository makes no such promise for one file and is only driven sequentially.
+	concurrent bool
 }
 
 func sameSnap(a *asset.Snapshot, b Snap) bool {
@@ -260,6 +278,97 @@ func prop(mk repoMaker) engine.AnyProp {
 					model[nm] = append(model[nm], op.Batch...)
 					known[nm] = true
 					appendsTo[nm]++
+				case "overlap":
+					if !mk.concurrent {
+						// sequential fallback: two ordinary appends
+						for _, b := range [][]Snap{op.Batch, op.Batch2} {
+							batch := make([]*asset.Snapshot, len(b))
+							for j, s := range b {
+								batch[j] = s.snapshot()
+							}
+							if err := repo.Append(nm, helper.SliceToChan(batch)); err != nil {
+								o.Failf("%s step %d: Append failed: %v", mk.name, i, err)
+								return o
+							}
+							model[nm] = append(model[nm], b...)
+						}
+						known[nm] = true
+						appendsTo[nm] += 2
+						break
+					}
+					// Append A is fed half of its batch and then held; Append B runs to completion and
+					// returns; then A gets the rest. Every snapshot of both must be there afterwards.
+					chA := make(chan *asset.Snapshot)
+					errA := make(chan error, 1)
+					go func() { errA <- repo.Append(nm, chA) }()
+					half := len(op.Batch) / 2
+					for _, s := range op.Batch[:half] {
+						chA <- s.snapshot()
+					}
+					batchB := make([]*asset.Snapshot, len(op.Batch2))
+					for j, s := range op.Batch2 {
+						batchB[j] = s.snapshot()
+					}
+					if err := repo.Append(nm, helper.SliceToChan(batchB)); err != nil {
+						o.Failf("%s step %d: overlapping Append B failed: %v", mk.name, i, err)
+						return o
+					}
+					// B has returned: it must be visible now ...
+					if ch, err := repo.Get(nm); err == nil {
+						seen := 0
+						for sn := range ch {
+							for _, b := range op.Batch2 {
+								if sameSnap(sn, b) {
+									seen++
+									break
+								}
+							}
+						}
+						if seen < len(op.Batch2) {
+							o.Failf("%s step %d: an Append of %d snapshots to %q has returned (while another Append to it is still in progress) but only %d of them are visible", mk.name, i, len(op.Batch2), nm, seen)
+							return o
+						}
+					}
+					for _, s := range op.Batch[half:] {
+						chA <- s.snapshot()
+					}
+					close(chA)
+					if err := <-errA; err != nil {
+						o.Failf("%s step %d: overlapping Append A failed: %v", mk.name, i, err)
+						return o
+					}
+					// ... and stay visible: the asset holds the previous snapshots followed by an
+					// interleaving of A and B that keeps each batch's order
+					ch, err := repo.Get(nm)
+					if err != nil {
+						o.Failf("%s step %d: Get after overlapping appends: %v", mk.name, i, err)
+						return o
+					}
+					got := helper.ChanToSlice(ch)
+					prev := len(model[nm])
+					if len(got) != prev+len(op.Batch)+len(op.Batch2) {
+						o.Failf("%s step %d: after two overlapping Append calls (%d and %d snapshots, both returned) %q holds %d snapshots, want %d + %d + %d: an Append that has returned is not visible", mk.name, i, len(op.Batch), len(op.Batch2), nm, len(got), prev, len(op.Batch), len(op.Batch2))
+						return o
+					}
+					ia, ib := 0, 0
+					var merged []Snap
+					for _, sn := range got[prev:] {
+						switch {
+						case ia < len(op.Batch) && sameSnap(sn, op.Batch[ia]):
+							merged = append(merged, op.Batch[ia])
+							ia++
+						case ib < len(op.Batch2) && sameSnap(sn, op.Batch2[ib]):
+							merged = append(merged, op.Batch2[ib])
+							ib++
+						default:
+							o.Failf("%s step %d: after overlapping appends snapshot %+v is neither the next of batch A nor of batch B", mk.name, i, sn)
+							return o
+						}
+					}
+					model[nm] = append(model[nm], merged...)
+					known[nm] = true
+					appendsTo[nm] += 2
+					o.Add("overlapping_append_pairs", 1)
 				case "since":
 					lastBound = op.Bound
 				case "touch":
@@ -290,7 +399,7 @@ var sqlSeq int
 
 func makers() []repoMaker {
 	return []repoMaker{
-		{name: "memory", open: func() (asset.Repository, func(), error) { return asset.NewInMemoryRepository(), func() {}, nil }},
+		{name: "memory", concurrent: true, open: func() (asset.Repository, func(), error) { return asset.NewInMemoryRepository(), func() {}, nil }},
 		func() repoMaker {
 			dir := ""
 			return repoMaker{name: "filesystem", open: func() (asset.Repository, func(), error) {
@@ -302,7 +411,7 @@ func makers() []repoMaker {
 				return asset.NewFileSystemRepository(d), func() { _ = os.RemoveAll(d) }, nil
 			}, touch: func(name string) error { return os.WriteFile(filepath.Join(dir, name+".csv"), nil, 0o600) }}
 		}(),
-		{name: "sql", open: func() (asset.Repository, func(), error) {
+		{name: "sql", concurrent: true, open: func() (asset.Repository, func(), error) {
 			sqlSeq++
 			db := fmt.Sprintf("c10-%d-%d", engine.Shard(), sqlSeq)
 			r, err := asset.NewSQLRepository(stub.SQLDriverName, db, stub.MemDialect{})
